@@ -578,7 +578,8 @@ theorem c03_un_eq_table (o : PyUnOp) (e : Expr) : Ops.un o e = unByTable c03Tabl
 /-! ### flatteners -/
 
 theorem c03_flatSumLoop_of (F : C03Flatten) (h1 : F.zeroReturns = false)
-    (h2 : F.skipsOne = false) (h3 : F.cls = .sum) (fuel : Nat) (q d : List Expr) :
+    (h2 : F.skipsOne = false) (h3 : F.cls = .sum) (h4 : F.spliceFront = true)
+    (fuel : Nat) (q d : List Expr) :
     c03FlattenLoop c03Preds F fuel q d = some (flattenedSumLoop fuel q d) := by
   induction fuel generalizing q d with
   | zero => rfl
@@ -586,7 +587,7 @@ theorem c03_flatSumLoop_of (F : C03Flatten) (h1 : F.zeroReturns = false)
     cases q with
     | nil => rfl
     | cons item queue =>
-      simp only [c03FlattenLoop, flattenedSumLoop, h1, h2, h3, Bool.false_and,
+      simp only [c03FlattenLoop, flattenedSumLoop, h1, h2, h3, h4, if_true, Bool.false_and,
         c03_not_truthy]
       by_cases hz : item.isZero = true
       · simp [hz, ih]
@@ -596,7 +597,8 @@ theorem c03_flatSumLoop_of (F : C03Flatten) (h1 : F.zeroReturns = false)
         | _ => simp [ih]
 
 theorem c03_flatProductLoop_of (F : C03Flatten) (h1 : F.zeroReturns = true)
-    (h2 : F.skipsOne = true) (h3 : F.cls = .prod) (fuel : Nat) (q d : List Expr) :
+    (h2 : F.skipsOne = true) (h3 : F.cls = .prod) (h4 : F.spliceFront = true)
+    (fuel : Nat) (q d : List Expr) :
     c03FlattenLoop c03Preds F fuel q d = flattenedProductLoop fuel q d := by
   induction fuel generalizing q d with
   | zero => rfl
@@ -604,7 +606,7 @@ theorem c03_flatProductLoop_of (F : C03Flatten) (h1 : F.zeroReturns = true)
     cases q with
     | nil => rfl
     | cons item queue =>
-      simp only [c03FlattenLoop, flattenedProductLoop, h1, h2, h3, Bool.true_and,
+      simp only [c03FlattenLoop, flattenedProductLoop, h1, h2, h3, h4, if_true, Bool.true_and,
         c03_not_truthy]
       by_cases hz : item.isZero = true
       · simp [hz]
@@ -617,11 +619,11 @@ theorem c03_flatProductLoop_of (F : C03Flatten) (h1 : F.zeroReturns = true)
 
 theorem c03_flatSumLoop (fuel : Nat) (q d : List Expr) :
     c03FlattenLoop c03Preds c03FlatSum fuel q d = some (flattenedSumLoop fuel q d) :=
-  c03_flatSumLoop_of _ rfl rfl rfl fuel q d
+  c03_flatSumLoop_of _ rfl rfl rfl rfl fuel q d
 
 theorem c03_flatProductLoop (fuel : Nat) (q d : List Expr) :
     c03FlattenLoop c03Preds c03FlatProduct fuel q d = flattenedProductLoop fuel q d :=
-  c03_flatProductLoop_of _ rfl rfl rfl fuel q d
+  c03_flatProductLoop_of _ rfl rfl rfl rfl fuel q d
 
 theorem c03_flattenedSum_eq (terms : List Expr) :
     flattenedSum terms = c03Flatten c03Preds c03FlatSum terms := by
